@@ -82,8 +82,9 @@ Proof. intros [_ S1] [W2 S2]. split; [exact W2|eapply Stab_trans; eauto]. Qed.
 (* the usual way to establish Guar for library code *)
 Lemma Guar_of_Casc st st' : WF st -> WFc st' -> Casc st st' -> Guar st st'.
 Proof.
-  intros [Hc Hn Hf] Hc' C. assert (S : Stab st st') by (apply Casc_Stab; [exact (wc_struct _ Hc)|exact C]).
-  split; [|exact S]. constructor; [exact Hc'|eapply tlive_noclear; [exact (ca_tracks _ _ C)|exact Hn]|eapply Stab_flags; eauto].
+  intros [Hc Hn Hf Hsh] Hc' C. assert (S : Stab st st') by (apply Casc_Stab; [exact (wc_struct _ Hc)|exact C]).
+  split; [|exact S]. constructor; [exact Hc'|eapply tlive_noclear; [exact (ca_tracks _ _ C)|exact Hn]|eapply Stab_flags; eauto|].
+  unfold shared_ok. rewrite (ca_shared _ _ C). exact Hsh.
 Qed.
 
 (* states that differ only in trace / leak counter / kind table *)
@@ -109,9 +110,10 @@ Qed.
 
 Lemma WF_sim st st' : sim st st' -> WF st -> WF st'.
 Proof.
-  intros Hs [Hc Hn Hf]. constructor; [eapply WFc_sim; eauto| |].
+  intros Hs [Hc Hn Hf Hsh]. constructor; [eapply WFc_sim; eauto| | |].
   - unfold noclear, live_track. rewrite (sm_tracks _ _ Hs). exact Hn.
   - unfold flags_ok. rewrite (sh_impls _ _ (sm_heavy _ _ Hs)). exact Hf.
+  - unfold shared_ok. rewrite (sh_shared _ _ (sm_heavy _ _ Hs)). exact Hsh.
 Qed.
 
 Lemma Stab_sim_r st st' st'' : sim st' st'' -> Stab st st' -> Stab st st''.
@@ -212,9 +214,9 @@ Proof.
     + rewrite (fi_others _ _ _ F j Hne). congruence.
 Qed.
 
-Lemma Guar_of_Stab st st' : WF st -> WFc st' -> noclear st' -> Stab st st' -> Guar st st'.
+Lemma Guar_of_Stab st st' : WF st -> WFc st' -> noclear st' -> shared_ok st' -> Stab st st' -> Guar st st'.
 Proof.
-  intros [Hc Hn Hf] Hc' Hn' S. split; [|exact S]. constructor; [exact Hc'|exact Hn'|eapply Stab_flags; eauto].
+  intros [Hc Hn Hf Hsh] Hc' Hn' Hsh' S. split; [|exact S]. constructor; [exact Hc'|exact Hn'|eapply Stab_flags; eauto|exact Hsh'].
 Qed.
 
 Lemma release_check_G i st : WF st ->
@@ -223,7 +225,8 @@ Lemma release_check_G i st : WF st ->
 Proof.
   intro H. destruct (release_check_ok i st (wf_c _ H)) as (st' & E & W & F & D).
   exists st'. split; [exact E|]. split; [|split; [exact (fi_sigs _ _ _ F)|split; [exact (fi_tracks _ _ _ F)|exact (fi_others _ _ _ F)]]].
-  apply Guar_of_Stab; [exact H|exact W|eapply tlive_noclear; [exact (fi_tracks _ _ _ F)|exact (wf_noclear _ H)]|].
+  apply Guar_of_Stab; [exact H|exact W|eapply tlive_noclear; [exact (fi_tracks _ _ _ F)|exact (wf_noclear _ H)]|
+                        unfold shared_ok; rewrite (fi_shared _ _ _ F); exact (wf_shared _ H)|].
   eapply FrameI_Stab; [exact (wc_struct _ (wf_c _ H))|exact F|].
   destruct D as [->|(A & B)].
   - destruct (aget i (impls st)) as [im|]; [exists im; split; [reflexivity|apply impl_same_refl]|discriminate].
@@ -296,7 +299,7 @@ Qed.
 
 Lemma Guar_with_tracks v st : WF st -> WFc (with_tracks v st) -> noclear (with_tracks v st) -> Guar st (with_tracks v st).
 Proof.
-  intros H Hc Hn. apply Guar_of_Stab; try assumption.
+  intros H Hc Hn. apply Guar_of_Stab; try assumption; [exact (wf_shared _ H)|].
   apply Stab_impls_eq; [exact (wc_struct _ (wf_c _ H))|reflexivity|cbn; lia].
 Qed.
 
@@ -312,11 +315,11 @@ Proof.
 Qed.
 
 Lemma del_user_track_G t st : WF st -> t < 1000 ->
-  exists st1, track_notify t st = Ok st1 /\
+  exists st1, track_notify t st = Ok st1 /\ Casc st st1 /\
     Guar st (with_tracks (aset t None (tracks st1)) st1).
 Proof.
   intros H Ht. destruct (track_notify_G t st H) as (st1 & E & G & C & D).
-  exists st1. split; [exact E|]. eapply Guar_trans; [exact G|]. destruct G as [W1 _].
+  exists st1. split; [exact E|]. split; [exact C|]. eapply Guar_trans; [exact G|]. destruct G as [W1 _].
   apply Guar_with_tracks; [exact W1| |].
   - apply WFc_with_tracks; [exact (wf_c _ W1)| |].
     + apply regs_del_track; [exact (wc_regs _ (wf_c _ W1))|exact D].
@@ -353,15 +356,15 @@ Proof.
       * split; reflexivity.
       * cbn [r_id]. rewrite Ea. intro X. apply in_map_iff in X. destruct X as (x & Ex & Hx).
         pose proof (proj1 (in_all_reps_good _ _ Hs Hx)) as Y. fold rid in Y. lia.
-  - constructor; [exact (sh_sigs _ _ H2)|exact (sh_impls _ _ H2)|exact (sh_nid _ _ H2)|exact (sh_iid _ _ H2)|exact (sh_ph _ _ H2)| |exact T2].
+  - constructor; [exact (sh_sigs _ _ H2)|exact (sh_impls _ _ H2)|exact (sh_nid _ _ H2)|exact (sh_iid _ _ H2)|exact (sh_ph _ _ H2)|exact (sh_shared _ _ H2)| |exact T2].
     rewrite Hrid2. unfold rid. lia.
   - exact (sh_slots _ _ H2).
 Qed.
 
-Lemma Casc_impls_eq st st' : sigs st' = sigs st -> next_iid st' = next_iid st -> tlive_same st st' ->
-  impls st' = impls st -> Casc st st'.
+Lemma Casc_impls_eq st st' : sigs st' = sigs st -> next_iid st' = next_iid st -> shared st' = shared st ->
+  tlive_same st st' -> impls st' = impls st -> Casc st st'.
 Proof.
-  intros Es En T Ei. constructor; try assumption. intro i. rewrite Ei.
+  intros Es En Ex T Ei. constructor; try assumption. intro i. rewrite Ei.
   destruct (aget i (impls st)); [apply impl_same_refl|exact I].
 Qed.
 
@@ -385,7 +388,7 @@ Proof.
     destruct (rep_delete_ok r _ [] st1 Hr1) as (st' & E' & R' & W' & H' & T').
     { rewrite Hwat. exact Hw1. }
     exists st'. split; [exact E'|]. split; [eapply WFc_build; eauto|].
-    apply Casc_impls_eq; [exact (sh_sigs _ _ H')|exact (sh_iid _ _ H')| |exact (sh_impls _ _ H')].
+    apply Casc_impls_eq; [exact (sh_sigs _ _ H')|exact (sh_iid _ _ H')|exact (sh_shared _ _ H')| |exact (sh_impls _ _ H')].
     eapply tlive_same_trans; [apply tlive_tracks_eq|exact T']. reflexivity.
   - exists st1. split; [reflexivity|]. split.
     + constructor; try assumption. rewrite Ea'. eapply regs_tracks_eq; [reflexivity|].
@@ -454,10 +457,11 @@ Proof.
           -- exact B.
       + intros g' go i Hl' Hi. rewrite Hsig in Hl'. rewrite (proj1 (add_sig_impls g k io st)).
         destruct (N.eqb g' g); [inversion Hl'; subst go; apply Hio; exact Hi|eapply G2; eauto]. }
-  apply Guar_of_Stab; [exact H|exact Hc'| |].
+  apply Guar_of_Stab; [exact H|exact Hc'| | |].
   - intros t tr Ht. rewrite Htr in Ht. destruct (gk_track k && N.eqb t (trackable_of_sig g)).
     + inversion Ht. reflexivity.
     + exact (wf_noclear _ H _ _ Ht).
+  - unfold shared_ok, add_sig. destruct (gk_track k); exact (wf_shared _ H).
   - apply Stab_impls_eq; [exact (wc_struct _ Hc)|exact (proj1 (add_sig_impls g k io st))|].
     rewrite (proj2 (add_sig_impls g k io st)). lia.
 Qed.
@@ -479,7 +483,7 @@ Proof.
         * cbn [sigs with_sigs tracks]. rewrite aget_aset. destruct (N.eqb g' g); [discriminate|exact B].
       + intros g' go' i Hl' Hi. unfold st' in Hl'. rewrite live_sig_aset in Hl'.
         destruct (N.eqb g' g); [inversion Hl'; subst go'; apply Hio; exact Hi|eapply G2; eauto]. }
-  apply Guar_of_Stab; [exact H|exact Hc'|exact (wf_noclear _ H)|].
+  apply Guar_of_Stab; [exact H|exact Hc'|exact (wf_noclear _ H)|exact (wf_shared _ H)|].
   apply Stab_impls_eq; [exact (wc_struct _ Hc)|reflexivity|cbn; lia].
 Qed.
 
@@ -523,9 +527,10 @@ Proof.
       + intros g' go' i Hl' Hi. rewrite Hsig in Hl'.
         assert (Ei : impls st' = impls st) by (unfold st', del_sig; destruct (gk_track (g_kind go)); reflexivity).
         rewrite Ei. destruct (N.eqb g' g); [discriminate|eapply G2; eauto]. }
-  apply Guar_of_Stab; [exact H|exact Hc'| |].
+  apply Guar_of_Stab; [exact H|exact Hc'| | |].
   - intros t tr Ht. rewrite Htr in Ht. destruct (gk_track (g_kind go) && N.eqb t (trackable_of_sig g)); [discriminate|].
     exact (wf_noclear _ H _ _ Ht).
+  - unfold shared_ok, st', del_sig. destruct (gk_track (g_kind go)); exact (wf_shared _ H).
   - apply Stab_impls_eq; [exact (wc_struct _ Hc)| |]; unfold st', del_sig; destruct (gk_track (g_kind go)); cbn; try reflexivity; lia.
 Qed.
 
@@ -667,7 +672,7 @@ Proof.
   set (ph := Ph (next_ph st)). set (nodes' := i_nodes im ++ [mkNode ph sb_none]).
   set (im1 := with_nodes nodes' (with_exec (i_exec im + 1) (with_holders (i_holders im + 1) im))).
   set (st0 := with_next_ph (next_ph st + 1) st). set (st1 := set_impl i im1 st0).
-  destruct H as [[Hs Hr Hg Hw] Hn Hf].
+  destruct H as [[Hs Hr Hg Hw] Hn Hf Hsh].
   assert (Hfresh : ~ In ph (ids (i_nodes im))).
   { intro X. destruct (ws_nodes _ Hs i im Hi) as (_ & F). rewrite Forall_forall in F.
     specialize (F ph X). unfold ph, nid_ok in F. lia. }
@@ -689,7 +694,7 @@ Proof.
   { cbn [im1 i_nodes with_nodes]. unfold nodes'. destruct (i_nodes im) as [|x l]; eexists; split; reflexivity. }
   destruct first_ok as (first & Ef & Hfirst). rewrite Ef.
   exists first, ph, st1, im1. split; [reflexivity|]. split; [|split; [|exact Hfirst]].
-  - constructor; [constructor| |].
+  - constructor; [constructor| | |].
     + exact Hs1.
     + rewrite Ea'. assert (X : all_reps st = L ++ R) by exact Ea. rewrite <- X.
       eapply regs_tracks_eq; [|exact Hr]. reflexivity.
@@ -707,11 +712,12 @@ Proof.
         split; [exact F1|]. split; [intro X; lia|]. unfold nodes'. rewrite ids_app, phc_app.
         cbn [ids map n_id phc filter nid_is_ph ph length]. lia.
       * exact (Hf j imj Hj).
+    + exact Hsh.
   - constructor; try reflexivity.
     + unfold st1. rewrite aget_set_impl, N.eqb_refl. reflexivity.
     + cbn [im1 i_nodes with_nodes]. unfold nodes'. rewrite ids_app. reflexivity.
     + exact Hfresh.
-    + unfold st1. constructor; [reflexivity|reflexivity|apply tlive_tracks_eq; reflexivity|].
+    + unfold st1. constructor; [reflexivity|reflexivity|reflexivity|apply tlive_tracks_eq; reflexivity|].
       intros j Hj. rewrite aget_set_impl. destruct (N.eqb_spec j i); [contradiction|reflexivity].
 Qed.
 
@@ -782,10 +788,12 @@ Proof.
         exfalso. pose proof (proj2 (refcount_zero i st5 B) im5 Hg5) as Z. cbn [im5 i_holders with_holders] in Z. lia.
       + rewrite (Hothers j Hne). apply (sb_keep _ _ S12 j imj); [|exact Hh].
         rewrite (fi_others _ _ _ FF j Hne). exact Hj. }
-  apply Guar_of_Stab; [exact H|exact W6| |exact S].
-  eapply tlive_noclear; [|exact (wf_noclear _ W2)].
-  eapply tlive_same_trans; [exact T3|]. eapply tlive_same_trans; [exact (fi_tracks _ _ _ F4)|].
-  eapply tlive_same_trans; [|exact (fi_tracks _ _ _ F6)]. apply tlive_tracks_eq. reflexivity.
+  apply Guar_of_Stab; [exact H|exact W6| | |exact S].
+  - eapply tlive_noclear; [|exact (wf_noclear _ W2)].
+    eapply tlive_same_trans; [exact T3|]. eapply tlive_same_trans; [exact (fi_tracks _ _ _ F4)|].
+    eapply tlive_same_trans; [|exact (fi_tracks _ _ _ F6)]. apply tlive_tracks_eq. reflexivity.
+  - unfold shared_ok. rewrite (fi_shared _ _ _ F6). unfold st5. cbn [shared set_impl with_impls].
+    rewrite (fi_shared _ _ _ F4), (sh_shared _ _ H3). exact (wf_shared _ W2).
 Qed.
 
 (* ------------------------------------------------------------------ *)
@@ -803,7 +811,7 @@ Proof.
   intros H Hl. destruct (ensure_impl_ok g go st (wf_c _ H) Hl) as (i & st' & E & W & P & L & D).
   exists i, st'. split; [exact E|]. split; [|split; [exact P|split; [exact L|]]].
   - destruct D as [(_ & ->)|(Hn & Ei & ->)]; [apply Guar_refl; exact H|].
-    apply Guar_of_Stab; [exact H|exact W|exact (wf_noclear _ H)|].
+    apply Guar_of_Stab; [exact H|exact W|exact (wf_noclear _ H)|exact (wf_shared _ H)|].
     pose proof (wc_struct _ (wf_c _ H)) as Hs. constructor.
     + apply iid_bound. exact Hs.
     + cbn [next_iid with_sigs set_impl with_impls with_next_iid]. lia.
@@ -859,6 +867,57 @@ Proof.
     rewrite (Ho w' Hne) in Hp. destruct (D w' i n Hp) as [[X|[]]|X]; [congruence|].
     right. eapply target_ok_impls; [exact (sh_impls _ _ Hh)|exact X].
 Qed.
+
+(* ------------------------------------------------------------------ *)
+(* the table of shared trackables                                       *)
+
+Lemma Forall_aset {A} (P : N * A -> Prop) k v l : Forall P l -> P (k, v) -> Forall P (aset k v l).
+Proof.
+  intros F Hk. induction l as [|[k' v'] l IH]; cbn [aset]; [constructor; [exact Hk|constructor]|].
+  inversion F as [|? ? F1 F2]; subst. destruct (N.eqb_spec k k') as [->|Hne]; constructor; auto.
+Qed.
+
+Lemma WF_with_shared v st : WF st -> Forall (fun e => fst e < 1000) v -> WF (with_shared v st).
+Proof.
+  intros [[Hs Hr Hg Hw] Hn Hf Hsh] Hv. constructor; [constructor| | |exact Hv].
+  - eapply WFstruct_mono; [| | | | | |exact Hs]; try reflexivity; lia.
+  - eapply regs_tracks_eq; [|exact Hr]. reflexivity.
+  - eapply sig_ok_transfer; [| | |exact Hg]; [reflexivity|apply tlive_tracks_eq; reflexivity|auto].
+  - eapply watch_ok_ex_transfer; [| | |exact Hw]; reflexivity.
+  - exact Hn.
+  - exact Hf.
+Qed.
+
+Lemma Guar_with_shared st st' v : Guar st st' -> Forall (fun e => fst e < 1000) v -> Guar st (with_shared v st').
+Proof.
+  intros [W [B M I K]] Hv. split; [apply WF_with_shared; assumption|]. constructor; assumption.
+Qed.
+
+Lemma shared_key_lt st t b : WF st -> aget t (shared st) = Some b -> t < 1000.
+Proof.
+  intros H Hg. pose proof (wf_shared _ H) as F. unfold shared_ok in F. rewrite Forall_forall in F.
+  exact (F (t, b) (aget_in _ _ _ Hg)).
+Qed.
+
+Lemma filter_length_le {A} (p : A -> bool) l : (length (filter p l) <= length l)%nat.
+Proof. induction l as [|x l IH]; cbn [filter length]; [lia|]. destruct (p x); cbn [length]; lia. Qed.
+
+Lemma filter_length_lt {A} (p q : A -> bool) l x : In x l -> p x = true -> q x = false ->
+  (forall y, q y = true -> p y = true) -> (length (filter q l) < length (filter p l))%nat.
+Proof.
+  intros Hin Hp Hq Himp. induction l as [|y l IH]; [destruct Hin|].
+  assert (Hle : forall l', (length (filter q l') <= length (filter p l'))%nat).
+  { induction l' as [|z l' IH']; cbn [filter length]; [lia|].
+    destruct (q z) eqn:Eq; [rewrite (Himp z Eq); cbn [length]; lia|]. destruct (p z); cbn [length]; lia. }
+  cbn [filter]. destruct Hin as [->|Hin].
+  - rewrite Hp, Hq. cbn [length]. specialize (Hle l). lia.
+  - specialize (IH Hin). destruct (q y) eqn:Eq; [rewrite (Himp y Eq); cbn [length]; lia|].
+    destruct (p y); cbn [length]; lia.
+Qed.
+
+Definition is_live (st : state) (e : N * bool) : bool :=
+  match live_track (fst e) st with Some _ => true | None => false end.
+Definition lv (st : state) : nat := length (filter (is_live st) (shared st)).
 
 (* ------------------------------------------------------------------ *)
 (* The interpreter, under the assumption that recursive calls are fine  *)
@@ -1209,37 +1268,56 @@ Section Safe.
   Lemma liftu_G st r : (exists st', r = Ok st' /\ Guar st st') -> out_ok st (liftu r).
   Proof. intros (st' & -> & G). exact G. Qed.
 
+  Lemma prog_track_live t st tr : prog_track t st = Some tr -> live_track t st = Some tr.
+  Proof. unfold prog_track. destruct (is_released t st); [discriminate|auto]. Qed.
+
   Lemma step_track_ok o st : WF st ->
-    match o with OTNew _ | OTDel _ | OTAssign _ _ | OTMoveAssign _ _ | OTNotify _ => out_ok st (step prog rec o st) | _ => True end.
+    match o with
+    | OTNew _ | OTDel _ | OTAssign _ _ | OTMoveAssign _ _ | OTNotify _ | OTNewShared _ | OTRelease _ =>
+        out_ok st (step prog rec o st)
+    | _ => True
+    end.
   Proof.
-    intro H. destruct o as [t|t|td ts|td ts|t|s rk body refs|s rk|sn so|sn so|sd ss|sd ss|s arg catch|s b|s|s|s|g k|gn go|gn go|gd gs|gd gs|g|g s c front mv|g arg catch|g|g b|g|s g|c|cn co|cd cs|c|c b|c|c|k c|k|k c|kn ko|kd ks|k1 k2|k c|k|k b|k|k| | ]; try exact I; cbn [step].
+    intro H. destruct o as [t|t|td ts|td ts|t|t|t|s rk body refs|s rk|sn so|sn so|sd ss|sd ss|s arg catch|s b|s|s|s|g k|gn go|gn go|gd gs|gd gs|g|g s c front mv|g arg catch|g|g b|g|s g|c|cn co|cd cs|c|c b|c|c|k c|k|k c|kn ko|kd ks|k1 k2|k c|k|k b|k|k| | ]; try exact I; cbn [step].
     - (* OTNew *)
       unfold fresh_track. destruct (aget t (tracks st)) eqn:Hf; cbn [andb]; [apply skip_ok; exact H|].
       destruct (N.ltb_spec t 1000); [|apply skip_ok; exact H].
       cbn [out_ok]. apply new_user_track_G; assumption.
     - (* OTDel *)
       destruct (live_track t st); [|apply skip_ok; exact H].
-      destruct (N.ltb_spec t 1000); [|apply skip_ok; exact H].
-      destruct (del_user_track_G t st H) as (st1 & E & G); [assumption|]. rewrite E. exact G.
+      destruct (N.ltb_spec t 1000); cbn [andb]; [|apply skip_ok; exact H].
+      destruct (negb (is_shared t st)); [|apply skip_ok; exact H].
+      destruct (del_user_track_G t st H) as (st1 & E & _ & G); [assumption|]. rewrite E. exact G.
     - (* OTAssign *)
-      destruct (live_track td st); [|apply skip_ok; exact H].
-      destruct (live_track ts st); [|apply skip_ok; exact H].
+      destruct (prog_track td st); [|apply skip_ok; exact H].
+      destruct (prog_track ts st); [|apply skip_ok; exact H].
       destruct (N.eqb td ts); [apply Guar_refl; exact H|].
       destruct (track_notify_G td st H) as (st1 & E & G & _). rewrite E. exact G.
     - (* OTMoveAssign *)
-      destruct (live_track td st); [|apply skip_ok; exact H].
-      destruct (live_track ts st); [|apply skip_ok; exact H].
+      destruct (prog_track td st); [|apply skip_ok; exact H].
+      destruct (prog_track ts st); [|apply skip_ok; exact H].
       destruct (N.eqb td ts); [apply Guar_refl; exact H|].
       destruct (track_notify_G td st H) as (st1 & E & G & _). rewrite E. cbn [rbind].
       destruct (track_notify_G ts st1 (proj1 G)) as (st2 & E2 & G2 & _). rewrite E2.
       cbn [liftu lift out_ok]. eapply Guar_trans; eauto.
     - (* OTNotify *)
-      destruct (live_track t st); [|apply skip_ok; exact H].
+      destruct (prog_track t st); [|apply skip_ok; exact H].
       destruct (track_notify_G t st H) as (st1 & E & G & _). rewrite E. exact G.
+    - (* OTNewShared *)
+      unfold fresh_track. destruct (aget t (tracks st)) eqn:Hf; cbn [andb]; [apply skip_ok; exact H|].
+      destruct (N.ltb_spec t 1000); [|apply skip_ok; exact H].
+      cbn [out_ok]. apply Guar_with_shared; [apply new_user_track_G; assumption|].
+      apply Forall_aset; [exact (wf_shared _ H)|assumption].
+    - (* OTRelease *)
+      destruct (live_track t st); [|apply skip_ok; exact H].
+      unfold is_shared. destruct (aget t (shared st)) as [b|] eqn:Hb; cbn [andb]; [|apply skip_ok; exact H].
+      destruct (negb (is_released t st)); [|apply skip_ok; exact H].
+      cbn [out_ok]. apply Guar_with_shared; [apply Guar_refl; exact H|].
+      apply Forall_aset; [exact (wf_shared _ H)|]. exact (shared_key_lt st t b H Hb).
   Qed.
 
   Lemma forallb_live refs st :
-    forallb (fun t => match live_track t st with Some _ => true | None => false end) refs = true ->
+    forallb (fun t => match live_track t st with Some _ => negb (is_released t st) | None => false end) refs = true ->
     forall t, In t refs -> live_track t st <> None.
   Proof.
     intros Hf t Hin. rewrite forallb_forall in Hf. specialize (Hf t Hin). destruct (live_track t st); [discriminate|discriminate].
@@ -1259,10 +1337,11 @@ Section Safe.
     | _ => True
     end.
   Proof.
-    intro H. pose proof (wf_c _ H) as Hc. destruct o as [t|t|td ts|td ts|t|s rk body refs|s rk|sn so|sn so|sd ss|sd ss|s arg catch|s b|s|s|s|g k|gn go|gn go|gd gs|gd gs|g|g s c front mv|g arg catch|g|g b|g|s g|c|cn co|cd cs|c|c b|c|c|k c|k|k c|kn ko|kd ks|k1 k2|k c|k|k b|k|k| | ]; try exact I; cbn [step].
+    intro H. pose proof (wf_c _ H) as Hc. destruct o as [t|t|td ts|td ts|t|t|t|s rk body refs|s rk|sn so|sn so|sd ss|sd ss|s arg catch|s b|s|s|s|g k|gn go|gn go|gd gs|gd gs|g|g s c front mv|g arg catch|g|g b|g|s g|c|cn co|cd cs|c|c b|c|c|k c|k|k c|kn ko|kd ks|k1 k2|k c|k|k b|k|k| | ]; try exact I; cbn [step].
     - (* OSNew *)
       unfold fresh_slot. destruct (aget s (slots st)) eqn:Hf; cbn [andb]; [apply skip_ok; exact H|].
-      destruct (forallb _ refs) eqn:Hlive; [|apply skip_ok; exact H].
+      destruct (forallb _ refs) eqn:Hlive; cbn [andb]; [|apply skip_ok; exact H].
+      destruct (forallb _ (owns prog body)); [|apply skip_ok; exact H].
       destruct (fresh_rep_ok true (mkFun body refs None) false st Hc (wf_noclear _ H) (forallb_live _ _ Hlive))
         as (st2 & E & W & G & S).
       cbn [f_refs] in E. rewrite E. cbn [out_ok].
@@ -1356,7 +1435,7 @@ Section Safe.
     | _ => True
     end.
   Proof.
-    intro H. pose proof (wf_c _ H) as Hc. destruct o as [t|t|td ts|td ts|t|s rk body refs|s rk|sn so|sn so|sd ss|sd ss|s arg catch|s b|s|s|s|g k|gn go|gn go|gd gs|gd gs|g|g s c front mv|g arg catch|g|g b|g|s g|c|cn co|cd cs|c|c b|c|c|k c|k|k c|kn ko|kd ks|k1 k2|k c|k|k b|k|k| | ]; try exact I; cbn [step].
+    intro H. pose proof (wf_c _ H) as Hc. destruct o as [t|t|td ts|td ts|t|t|t|s rk body refs|s rk|sn so|sn so|sd ss|sd ss|s arg catch|s b|s|s|s|g k|gn go|gn go|gd gs|gd gs|g|g s c front mv|g arg catch|g|g b|g|s g|c|cn co|cd cs|c|c b|c|c|k c|k|k c|kn ko|kd ks|k1 k2|k c|k|k b|k|k| | ]; try exact I; cbn [step].
     - (* OGNew *)
       unfold fresh_sig. destruct (aget g (sigs st)) eqn:Hf; cbn [andb]; [apply skip_ok; exact H|].
       destruct (negb (gk_track k) || fresh_track (trackable_of_sig g) st); [|apply skip_ok; exact H].
@@ -1557,7 +1636,7 @@ Section Safe.
     | _ => True
     end.
   Proof.
-    intro H. pose proof (wf_c _ H) as Hc. destruct o as [t|t|td ts|td ts|t|s rk body refs|s rk|sn so|sn so|sd ss|sd ss|s arg catch|s b|s|s|s|g k|gn go|gn go|gd gs|gd gs|g|g s c front mv|g arg catch|g|g b|g|s g|c|cn co|cd cs|c|c b|c|c|k c|k|k c|kn ko|kd ks|k1 k2|k c|k|k b|k|k| | ]; try exact I; cbn [step].
+    intro H. pose proof (wf_c _ H) as Hc. destruct o as [t|t|td ts|td ts|t|t|t|s rk body refs|s rk|sn so|sn so|sd ss|sd ss|s arg catch|s b|s|s|s|g k|gn go|gn go|gd gs|gd gs|g|g s c front mv|g arg catch|g|g b|g|s g|c|cn co|cd cs|c|c b|c|c|k c|k|k c|kn ko|kd ks|k1 k2|k c|k|k b|k|k| | ]; try exact I; cbn [step].
     - (* OCEmpty *)
       destruct (fresh_conn c st); [|apply skip_ok; exact H].
       destruct (set_conn_ok (WC c) None st H) as (st' & E & G); [intros i n X; discriminate|].
@@ -1723,11 +1802,57 @@ Section Safe.
     - cbn [step out_ok]. apply Guar_refl. exact H.
   Qed.
 
+  (* ---- collection of orphaned shared trackables ---- *)
+
+  Lemma find_orphan_spec l st t : find_orphan prog l st = Some t ->
+    exists rel, In (t, rel) l /\ is_live st (t, rel) = true.
+  Proof.
+    induction l as [|[t' rel] l IH]; cbn [find_orphan]; [discriminate|].
+    destruct (rel && match live_track t' st with Some _ => true | None => false end && N.eqb (owner_count prog t' st) 0) eqn:E.
+    - intro X. inversion X; subst t'. exists rel. split; [left; reflexivity|].
+      apply andb_true_iff in E. destruct E as [E _]. apply andb_true_iff in E. destruct E as [_ E].
+      unfold is_live. cbn [fst]. exact E.
+    - intro X. destruct (IH X) as (r & Hin & Hl). exists r. split; [right; exact Hin|exact Hl].
+  Qed.
+
+  Lemma gc_ok : forall fuel st, WF st -> (lv st < fuel)%nat ->
+    exists st', gc prog fuel st = Ok st' /\ Guar st st'.
+  Proof.
+    induction fuel as [|fuel IH]; intros st H Hlv; [lia|]. cbn [gc].
+    destruct (find_orphan prog (shared st) st) as [t|] eqn:Hfo.
+    2:{ exists st. split; [reflexivity|apply Guar_refl; exact H]. }
+    destruct (find_orphan_spec _ _ _ Hfo) as (rel & Hin & Hlive).
+    assert (Ht : t < 1000).
+    { pose proof (wf_shared _ H) as F. unfold shared_ok in F. rewrite Forall_forall in F. exact (F (t, rel) Hin). }
+    destruct (del_user_track_G t st H Ht) as (st1 & E & C & G). rewrite E. cbn [rbind].
+    set (st2 := with_tracks (aset t None (tracks st1)) st1) in *.
+    destruct (IH st2 (proj1 G)) as (st' & E' & G').
+    - assert (Hsh : shared st2 = shared st) by exact (ca_shared _ _ C).
+      unfold lv. rewrite Hsh.
+      assert (X : (length (filter (is_live st2) (shared st)) < length (filter (is_live st) (shared st)))%nat); [|unfold lv in Hlv; lia].
+      apply (filter_length_lt (is_live st) (is_live st2) (shared st) (t, rel) Hin Hlive).
+      + unfold is_live, st2. cbn [fst]. rewrite live_track_aset, N.eqb_refl. reflexivity.
+      + intros [t' r'] Hy. unfold is_live, st2 in *. cbn [fst] in *. rewrite live_track_aset in Hy.
+        destruct (N.eqb t' t); [discriminate|].
+        pose proof (tlive_live st st1 t' (ca_tracks _ _ C)) as Z.
+        destruct (live_track t' st1); [|discriminate]. destruct (live_track t' st); [reflexivity|].
+        exfalso. apply (proj1 Z); [discriminate|reflexivity].
+    - exists st'. split; [exact E'|eapply Guar_trans; eauto].
+  Qed.
+
+  Lemma gc_shared_ok st : WF st -> exists st', gc_shared prog st = Ok st' /\ Guar st st'.
+  Proof.
+    intro H. unfold gc_shared. apply gc_ok; [exact H|]. unfold lv.
+    pose proof (filter_length_le (is_live st) (shared st)). lia.
+  Qed.
+
   Lemma run_ops_ok ops : forall st, WF st -> out_ok st (run_ops prog rec ops st).
   Proof.
     induction ops as [|o ops IH]; intros st H; cbn [run_ops]; [apply Guar_refl; exact H|].
     pose proof (step_ok o st H) as X. destruct (step prog rec o st) as [st1 u|st1|e]; cbn [out_ok] in X.
-    - pose proof (IH st1 (proj1 X)) as Y. destruct (run_ops prog rec ops st1); cbn [out_ok] in *;
+    - destruct (gc_shared_ok st1 (proj1 X)) as (st2 & E2 & G2). rewrite E2.
+      assert (G : Guar st st2) by (eapply Guar_trans; eauto).
+      pose proof (IH st2 (proj1 G)) as Y. destruct (run_ops prog rec ops st2); cbn [out_ok] in *;
         try (eapply Guar_trans; eauto); exact Y.
     - exact X.
     - exact X.
@@ -1783,9 +1908,13 @@ Proof.
   intros p fuel ops. induction ops as [|o ops IH]; intros st [H Q]; cbn [run_top]; [split; assumption|].
   pose proof (step_ok p (run_callee_fuel p fuel) (run_callee_fuel_ok p fuel) o st H) as X.
   destruct (step p (run_callee_fuel p fuel) o st) as [st1 u|st1|e]; cbn [out_ok] in X.
-  - apply IH. split; [exact (proj1 X)|eapply Guar_quiescent; eauto].
-  - apply IH. assert (G : Guar st (emit_ev EExn st1)) by (eapply Guar_sim_r; [apply sim_emit_ev|exact X]).
-    split; [exact (proj1 G)|eapply Guar_quiescent; eauto].
+  - destruct (gc_shared_ok p st1 (proj1 X)) as (st2 & E2 & G2). rewrite E2. cbn [rbind].
+    assert (G : Guar st st2) by (eapply Guar_trans; eauto).
+    apply IH. split; [exact (proj1 G)|eapply Guar_quiescent; eauto].
+  - assert (G1 : Guar st (emit_ev EExn st1)) by (eapply Guar_sim_r; [apply sim_emit_ev|exact X]).
+    destruct (gc_shared_ok p (emit_ev EExn st1) (proj1 G1)) as (st2 & E2 & G2). rewrite E2. cbn [rbind].
+    assert (G : Guar st st2) by (eapply Guar_trans; eauto).
+    apply IH. split; [exact (proj1 G)|eapply Guar_quiescent; eauto].
   - exact X.
 Qed.
 
